@@ -182,6 +182,24 @@ func ReplayFile(path string) int {
 		fmt.Println("replay:", err)
 		return 2
 	}
+	if m.Special != nil {
+		// schedule-dependent witness: re-run the whole round set it came from
+		fmt.Printf("replay: %s witnesses depend on the schedule; re-running the %s tier at seed %d\n", v.Prop, v.Tier, v.Seed)
+		exe, err := os.Executable()
+		if err != nil {
+			return 2
+		}
+		work := filepath.Join(VerifDir(), ".work", v.Prop+"-replay")
+		os.RemoveAll(work)
+		os.MkdirAll(work, 0o755)
+		defer os.RemoveAll(work)
+		seed := v.Seed
+		if v.Class == "race" && seed >= 1000 {
+			seed = seed / 1000
+		}
+		p := &Parent{M: m, Tier: v.Tier, Seed: seed, Exe: exe, Work: work}
+		return p.Run()
+	}
 	cl := m.class(v.Class)
 	if cl == nil {
 		fmt.Printf("replay: class %q not found\n", v.Class)
@@ -690,4 +708,41 @@ func (p *Parent) Finish(sum *Summary) int {
 		return 2
 	}
 	return 0
+}
+
+// SpecialSummary is the thread-safe accumulator used by monitors with their own
+// parent (the race monitor).
+type SpecialSummary struct{ s *Summary }
+
+func NewSummaryForSpecial() *SpecialSummary { return &SpecialSummary{s: newSummary()} }
+
+func (x *SpecialSummary) S() *Summary                   { return x.s }
+func (x *SpecialSummary) AddViolation(v Violation)      { v.Input = sanitize(v.Input); x.s.AddViolation(v) }
+func (x *SpecialSummary) AddInconclusive(reason string) { x.s.AddInconclusive(reason) }
+
+func (x *SpecialSummary) AddCounter(name string, n int64) {
+	x.s.mu.Lock()
+	defer x.s.mu.Unlock()
+	x.s.Counters[name] += n
+}
+
+func (x *SpecialSummary) AddEvals(n int64) {
+	x.s.mu.Lock()
+	defer x.s.mu.Unlock()
+	x.s.Evals += n
+	x.s.ClassCases["race"]++
+}
+
+func (x *SpecialSummary) AddDistinct(sig string) {
+	x.s.mu.Lock()
+	defer x.s.mu.Unlock()
+	x.s.Distinct[HashString(sig)] = struct{}{}
+}
+
+func (x *SpecialSummary) AddSample(v any) {
+	x.s.mu.Lock()
+	defer x.s.mu.Unlock()
+	if len(x.s.Samples) < 8 {
+		x.s.Samples = append(x.s.Samples, sanitize(v))
+	}
 }
